@@ -1,4 +1,3 @@
-import LoraVerif.Gen.CmdTables
 import LoraVerif.Model.MacCmdFields
 import LoraVerif.Lemmas.MacCmdIter
 /-! No accessor of a payload that is at least as long as the accessors reach (`need`) panics; the
@@ -245,11 +244,6 @@ theorem accessors_ok (cph : Cipher) (ty : String) (p : Bytes) (h : need ty ≤ p
   · exact accMcGroupSetupAns_ok h
   · exact accMcGroupDeleteAns_ok h
   · intro a ha; simp at ha
-
-/-- every entry of the six generated tables gives its payload type at least the length its accessors reach
-(a variable-length payload is never empty) -/
-theorem tables_cover_need : ∀ s ∈ Gen.CmdTables.allSets, ∀ r ∈ s.2,
-    need r.2.2.2 ≤ (match r.2.1 with | some l => l | none => 1) := by decide
 
 theorem varLen_pos {ty : String} {rest : Bytes} {n : Nat} (h : varLen ty rest = .ok n) : 1 ≤ n := by
   unfold varLen at h
